@@ -205,7 +205,7 @@ def run_job(job):
         reg.set_opt(o, i + 1)
     probe = probemod.Probe(reg)
     T = probemod.traced_transpiler(probe)
-    sources = poolmod.Sources(os.path.join(job['scratch'], 'src'))
+    sources = poolmod.sources_for(os.path.join(root, 'src'))
     spy = ScopeSpy()
     diffs = []
     dlock = threading.Lock()
